@@ -30,7 +30,10 @@ RULE = (
     "annotation (dim grammar; symbolic axes only over names bound by plain named axes of earlier "
     "parameters), argument shapes mostly consistent with 0-2 planted inconsistencies; each case runs "
     "under {typeguard, beartype} x {jaxtyped(typechecker=), jaxtyped(tc(fn)), dataclass} x {declared "
-    "order, 2 admissible permutations} x {positional, keyword}; non-trivial = at least two parameters "
+    "order, 2 admissible permutations} x {positional, keyword}; plus signatures of three annotated values "
+    "(2 parameters + return, or 3 parameters) that all use ONE multi-axis name as `*b` / `#*b` over a pool "
+    "of mutually (non-)broadcastable shapes (400 sampled in quick, all in thorough, every parameter order); "
+    "non-trivial = at least two parameters "
     "share an axis name; distinct by (signature, shapes)"
 )
 TRUSTED = [
@@ -166,9 +169,15 @@ def run_configs(case, order, rng):
 MODEL_MAP = {"returned": "accept", "tceParams": "reject", "tceReturn": "reject", "checkerError": "reject", "ann": "ann", "exc": "reject", "baseexc": "reject"}
 
 
-def run_case(out, drv, facts, case, rng, nperm):
+def run_case(out, drv, facts, case, rng, nperm, all_perms=False):
     skel, wrap = extract.skel_request(facts)
-    orders = [case["params"]] + admissible_perms(rng, case["params"], nperm)
+    if all_perms and len(case["params"]) <= 3:
+        import itertools
+        orders = [list(p) for p in itertools.permutations(case["params"])]
+        if nperm < 2:
+            orders = [orders[0]] + rng.sample(orders[1:], min(len(orders) - 1, 2))
+    else:
+        orders = [case["params"]] + admissible_perms(rng, case["params"], nperm)
     verdicts = {}
     model_v = None
     for oi, order in enumerate(orders):
@@ -205,12 +214,36 @@ def run_case(out, drv, facts, case, rng, nperm):
             out.model_diff("model-order", f"the model's verdict depends on the parameter order: {verdicts}", rep)
 
 
+VAR_SHAPES = [[4], [1, 4], [3, 4], [0, 4], [1], [], [3, 1], [2, 3, 4], [0], [1, 0]]
+
+
+def variadic_cases(thorough):
+    """every signature of three annotated values (2 parameters + return, or 3 parameters) that all use ONE
+    multi-axis name as `*b` or `#*b`, over a pool of shapes that broadcast / do not broadcast to each other:
+    the cases in which what an earlier value stored decides a later one"""
+    import itertools
+
+    pool = VAR_SHAPES if thorough else VAR_SHAPES[:5]
+    uses = [(f, sh) for f in ("*b", "#*b") for sh in pool]
+    for combo in itertools.product(uses, repeat=3):
+        for with_ret in (True, False):
+            ps = [{"name": f"x{i}", "dims": f, "shape": list(sh), "cat": "Shaped", "dtype": "float32"} for i, (f, sh) in enumerate(combo[:2] if with_ret else combo)]
+            ret = {"dims": combo[2][0], "shape": list(combo[2][1]), "cat": "Shaped", "dtype": "float32"} if with_ret else None
+            yield {"params": ps, "ret": ret}
+
+
 def run(tier, seed, out, drv, facts):
     rng = Rng(seed, "C02")
     thorough = tier == "thorough"
     n = 6000 if thorough else 300
     for _ in range(n):
         run_case(out, drv, facts, gen_case(rng, thorough), rng, 2)
+    vc = list(variadic_cases(thorough))
+    if not thorough:
+        vc = rng.sample(vc, 400)
+    for case in vc:
+        run_case(out, drv, facts, case, rng, 1 if not thorough else 2, all_perms=True)
+    out.count("variadic_signatures", len(vc))
 
 
 def replay(rep, out, drv, facts):
